@@ -250,9 +250,22 @@ def _shard_entry(args):
         return ("harness", "%s: %s\n%s" % (type(e).__name__, e, traceback.format_exc()))
 
 
+def _shard_child(conn, w):
+    try:
+        conn.send(_shard_entry(w))
+        conn.close()
+    finally:
+        os._exit(0)
+
+
 def run_shards(modname, fn, kwargs_list, jobs=None):
-    """run mod.fn(**kwargs) for each kwargs in fresh worker processes; merge Stats"""
+    """run mod.fn(**kwargs) for each kwargs in a fresh (forked) worker process each; merge Stats.
+    A worker that ends without a result (killed by the memory limit, a fatal interpreter error) or that outlives the
+    backstop VERIF_SHARD_TIMEOUT (default 2 h: a loop that never ends) is a harness error naming the shard - a pool would wait
+    for it for ever."""
     import multiprocessing as mp
+    import multiprocessing.connection as mpc
+    import time
     jobs = jobs or min(NCPU, len(kwargs_list))
     total = Stats()
     work = [(modname, fn, kw) for kw in kwargs_list]
@@ -260,8 +273,43 @@ def run_shards(modname, fn, kwargs_list, jobs=None):
         results = [_shard_entry(w) for w in work]
     else:
         ctx = mp.get_context("fork")
-        with ctx.Pool(jobs, maxtasksperchild=1) as pool:
-            results = pool.map(_shard_entry, work, chunksize=1)
+        limit = float(os.environ.get("VERIF_SHARD_TIMEOUT", "7200"))
+        results = [None] * len(work)
+        pending = list(range(len(work)))
+        running = {}
+        try:
+            while pending or running:
+                while pending and len(running) < jobs:
+                    i = pending.pop(0)
+                    rd, wr = ctx.Pipe(duplex=False)
+                    sys.stdout.flush()
+                    sys.stderr.flush()
+                    pr = ctx.Process(target=_shard_child, args=(wr, work[i]))
+                    pr.start()
+                    wr.close()
+                    running[i] = (pr, rd, time.monotonic())
+                ready = mpc.wait([rd for _, rd, _ in running.values()], timeout=5)
+                for i, (pr, rd, t0) in list(running.items()):
+                    if rd in ready:
+                        try:
+                            results[i] = rd.recv()
+                        except (EOFError, OSError):
+                            pr.join(10)
+                            results[i] = ("harness", "shard %s.%s #%d ended without a result (exit code %r): the worker process died while running it; arguments %s" % (
+                                modname, fn, i, pr.exitcode, repr(work[i][2])[:300]))
+                        pr.join(10)
+                        rd.close()
+                        del running[i]
+                    elif time.monotonic() - t0 > limit:
+                        pr.kill()
+                        pr.join(10)
+                        rd.close()
+                        del running[i]
+                        results[i] = ("harness", "shard %s.%s #%d did not finish within %.0f s (VERIF_SHARD_TIMEOUT): inconclusive; arguments %s" % (
+                            modname, fn, i, limit, repr(work[i][2])[:300]))
+        finally:
+            for pr, rd, _ in running.values():
+                pr.kill()
     for status, payload in results:
         if status != "ok":
             raise HarnessError(payload)
